@@ -748,6 +748,7 @@ def run(ck: Check) -> None:
 
     # the colliding cache keys: (a, namespace x) and (x/a, no namespace) are both cached as "x/a"
     probe_key_collision(ck)
+    probe_falsy_namespace(ck)
 
     preamble = "\n".join(I_cfg.defs + I_store.defs + I_req.defs + I_resp.defs)
     mm = ck.coq_mismatches("hist", IMPORTS, "run_case_guarded", "obs_eqb", "case", "list response", cases, expected,
@@ -765,6 +766,60 @@ def run(ck: Check) -> None:
             {"type": "history", "world": kind, "cfg": list(cfg), "requests": [list(r) for r in reqs], "impl": got, "model": model,
              "broken": "correspondence CachingLoader.run_case ~ CachingLoaderMixin.load/load_async (theorems C23_transparent*)"},
             no_input=True)
+
+
+def probe_falsy_namespace(ck: Check) -> None:
+    """Namespace values that are FALSY (0, '', None, False) are namespaces like any other: a multi-tenant loader keyed by the
+    keyword argument must never hand the template of tenant 0 to a request without a namespace, or the other way round
+    (oracle only; the model's namespaces are non-empty strings)."""
+    import itertools
+
+    from liquid import CachingDictLoader, DictLoader, Environment
+    from liquid.loader import TemplateSource
+
+    missing = object()
+
+    class Ns:
+        def get_source(self, env, template_name, *, context=None, **kwargs):
+            uid = kwargs.get(NSKEY, missing)
+            key = template_name if uid is missing else f"{uid!r}|{template_name}"
+            src = super().get_source(env, key, context=context, **kwargs)
+            return TemplateSource(src[0], template_name, src[2], *src[3:])
+
+    class Plain(Ns, DictLoader):
+        pass
+
+    class Caching(Ns, CachingDictLoader):
+        pass
+
+    values = [missing, 0, "", None, False, "x"]
+    d = {"a": "shared a"}
+    for v in values[1:]:
+        d[f"{v!r}|a"] = f"a of tenant {v!r}"
+    penv = Environment(loader=Plain(d))
+    for seq in itertools.permutations(values, 2):
+        for use_async in (False, True):
+            cenv = Environment(loader=Caching(d, namespace_key=NSKEY, capacity=4))
+            for i, v in enumerate(seq):
+                kw = {} if v is missing else {NSKEY: v}
+                try:
+                    if use_async:
+                        got = run_async(cenv.get_template_async("a", **kw)).render()
+                    else:
+                        got = cenv.get_template("a", **kw).render()
+                except Exception as e:  # noqa: BLE001
+                    got = "ERR:" + classify_exc(e)
+                want = penv.get_template("a", **kw).render()
+                ck.count("probe.falsy-namespace")
+                ck.traces += 1
+                if got != want:
+                    shown = ["<none>" if x is missing else repr(x) for x in seq[: i + 1]]
+                    ck.violation(
+                        "impl-violation", "c23:falsy-namespace:" + ("async" if use_async else "sync"),
+                        f"namespace-aware caching loader (namespace_key='uid'), requests for 'a' with uid = {shown}: the last one returns "
+                        f"{got!r} where the non-caching loader returns {want!r}",
+                        {"type": "falsy-namespace", "sequence": shown, "async": use_async, "got": got, "non_caching": want})
+                    break
 
 
 def probe_key_collision(ck: Check) -> None:
